@@ -6,7 +6,7 @@ from dendropy.utility import error as dperror
 from vlib.driver import Harness, assume, choose, Fail, with_signature
 from vlib import treegen as tg
 
-MAXN = 8
+MAXN = 10
 LMAX = 1000
 
 SPEC = ([("a%d" % i, int) for i in range(1, MAXN)] + [("b%d" % i, int) for i in range(1, MAXN)] +
